@@ -25,6 +25,8 @@ def query (c : Content) (q : Json) : Except String Json := do
   | [.str "fluxes", v, t] => pure (resJ (assocJ ratJ) (Mxl.getFluxes c (← optVars v) (← jRat t)))
   | [.str "rhs", v, t] => pure (resJ (assocJ ratJ) (Mxl.getRhsQ c (← optVars v) (← jRat t)))
   | [.str "call", t, xs] => pure (resJ ratsJ (Mxl.callRhs c (← jRat t) (← jList jRat xs)))
+  | [.str "stoichvar", v, t, x] =>
+      pure (resJ (assocJ ratJ) (Mxl.getStoichOfVar c (← jStr x) (← optVars v) (← jRat t)))
   | [.str "tc", rows] => do
       let rs ← jList (jPair jRat (jAssoc jRat)) rows
       let a := Mxl.getArgsTC c rs
